@@ -235,53 +235,55 @@ where zeroFields : List SField → List RV
   | [] => []
   | .mk _ s :: r => zeroOf s :: zeroFields r
 
+/-- an AVP's integer value converted to `uint8` (0 when it has none) -/
+def lowByte (x : AVP) : UInt8 :=
+  match x.data with
+  | .fix ty n => if isFloatT ty then 0 else UInt8.ofNat (n % 256)
+  | _ => 0
+
+/-- the non-empty suffixes of a list: `unmarshal` fills element `n` of a slice from `avps[n:]` -/
+def tailsNE {α : Type} : List α → List (List α)
+  | [] => []
+  | a :: r => (a :: r) :: tailsNE r
+
 mutual
 /-- `unmarshal(m, f, avps)`: `avps` are the message's AVPs with the field's code (non-empty),
     `cur` is the field's present value -/
-def unmarshalField (find : FindFn) : Nat → Shape → List AVP → RV → RV
-  | 0, _, _, cur => cur
-  | _, _, [], cur => cur
-  | fuel+1, .slice s, a :: rest, _ =>
+def unmarshalField (find : FindFn) : Shape → List AVP → RV → RV
+  | _, [], cur => cur
+  | .slice s, a :: rest, _ =>
     -- no datatype value converts to a slice of non-byte elements: a new slice, one element per AVP
-    .slice (unmarshalElems find fuel s (a :: rest))
-  | fuel+1, .ptr s, avps, cur =>
-    .ptr (unmarshalField find fuel s avps (match cur with | .ptr v => v | _ => zeroOf s))
-  | fuel+1, .struct fs, a :: _, cur =>
+    .slice ((tailsNE (a :: rest)).map (fun t => unmarshalField find s t (zeroOf s)))
+  | .ptr s, a :: rest, cur =>
+    .ptr (unmarshalField find s (a :: rest) (match cur with | .ptr v => v | _ => zeroOf s))
+  | .struct fs, a :: _, cur =>
     (match a.data, cur with
-     | .group kids, .struct vs => .struct (scanFields find fuel fs kids vs)
+     | .group kids, .struct vs => .struct (scanFields find fs kids vs)
      | _, _ => cur)
-  | _, .avp, a :: _, _ => .avp a
-  | _, .leaf t, a :: rest, cur =>
+  | .avp, a :: _, _ => .avp a
+  | .leaf t, a :: rest, cur =>
     (match fromData t a.data with
      | some v => .leaf v
      | none =>
        -- a byte-slice field whose AVP data does not convert to it is a Go slice all the same:
        -- a new slice with one byte per AVP, each the AVP's integer value converted to uint8
-       if t.cls = 3 then .leaf (.b ((a :: rest).map (fun x => match x.data with
-           | .fix ty n => if isFloatT ty then 0 else UInt8.ofNat (n % 256)
-           | _ => 0)))
+       if t.cls = 3 then .leaf (.b ((a :: rest).map lowByte))
        else cur)
-def unmarshalElems (find : FindFn) : Nat → Shape → List AVP → List RV
-  | 0, _, _ => []
-  | _, _, [] => []
-  | fuel+1, s, a :: rest => unmarshalField find fuel s (a :: rest) (zeroOf s) :: unmarshalElems find fuel s rest
 /-- `scanStruct`: every tagged field whose code occurs in `avps` is filled from the AVPs with
     that code; anonymous struct fields without a tag are scanned against the same AVPs -/
-def scanFields (find : FindFn) : Nat → List SField → List AVP → List RV → List RV
-  | 0, _, _, vs => vs
-  | fuel+1, .mk tag s :: fs, avps, v :: vs =>
-    (if tag.emb then scanEmb find fuel s avps v
+def scanFields (find : FindFn) : List SField → List AVP → List RV → List RV
+  | .mk tag s :: fs, avps, v :: vs =>
+    (if tag.emb then scanEmb find s avps v
      else if tag.name = 0 then v
      else match entOf find tag.name with
       | none => v        -- (scanStruct returns the lookup error; fields before it stay filled)
       | some e =>
         let mine := avps.filter (fun a => a.code = e.code)
-        if mine.isEmpty then v else unmarshalField find fuel s mine v) :: scanFields find fuel fs avps vs
-  | _, _, _, vs => vs
-def scanEmb (find : FindFn) : Nat → Shape → List AVP → RV → RV
-  | 0, _, _, v => v
-  | fuel+1, .struct efs, avps, .struct evs => .struct (scanFields find fuel efs avps evs)
-  | _, _, _, v => v
+        if mine.isEmpty then v else unmarshalField find s mine v) :: scanFields find fs avps vs
+  | _, _, vs => vs
+def scanEmb (find : FindFn) : Shape → List AVP → RV → RV
+  | .struct efs, avps, .struct evs => .struct (scanFields find efs avps evs)
+  | _, _, v => v
 end
 
 /-! ### well-formedness (the hypothesis of the round-trip theorem) and value equivalence -/
@@ -311,13 +313,17 @@ def distinct : List Nat → Bool
   | [] => true
   | a :: r => !r.contains a && distinct r
 
+def RV.isNil : RV → Bool
+  | .nil => true
+  | _ => false
+
 mutual
 /-- the value `v` of shape `s`, for an AVP described by `e`, is inside the fragment on which
     marshalling and unmarshalling are inverse -/
 def wfField (find : FindFn) : Shape → RV → DEnt → Bool
   | .leaf t, .leaf v, e => decide (e.ty ≠ T.grouped) && decide ((toData e.ty t v).bind (fromData t) = some v)
   | .ptr _, .nil, _ => true
-  | .ptr s, .ptr v, e => s.single && wfField find s v e
+  | .ptr s, .ptr v, e => s.single && !v.isNil && wfField find s v e
   | .slice _, .nil, _ => true
   | .slice s, .slice vs, e => s.single && wfElems find s vs e
   | .struct fs, .struct vs, e => e.ty = T.grouped && distinct (levelCodes find fs) && wfGroup find fs vs
@@ -325,7 +331,7 @@ def wfField (find : FindFn) : Shape → RV → DEnt → Bool
   | _, _, _ => false
 def wfElems (find : FindFn) : Shape → List RV → DEnt → Bool
   | _, [], _ => true
-  | s, v :: r, e => (match v with | .nil => false | _ => true) && wfField find s v e && wfElems find s r e
+  | s, v :: r, e => !v.isNil && wfField find s v e && wfElems find s r e
 def wfGroup (find : FindFn) : List SField → List RV → Bool
   | .mk tag s :: fs, v :: vs =>
     (if tag.emb then false        -- an anonymous struct inside a grouped struct is not marshalled
